@@ -1,5 +1,5 @@
 From AQ Require Import lib.Base model.Codec model.Varint model.RangeSet model.AckFrame model.Header.
-From AQ Require Import model.TlsCodec.
+From AQ Require Import model.TlsCodec model.TParams proofs.TParamsProofs.
 From AQ Require Import proofs.CodecProofs proofs.VarintProofs proofs.AckFrameProofs proofs.HeaderProofs proofs.TlsCodecProofs.
 
 (* ---- variable-length integers (RFC 9000 section 16) ---- *)
@@ -182,3 +182,9 @@ Theorem ext_length_ignored_refuted :
     Ok (out_bytes (repeat 0 32) ++ [0] ++ [0x1301; 0] ++ [1; 0x0304; 0; 0] ++ [0], []).
 Proof. exact TlsCodecProofs.ext_length_ignored_refuted. Qed.
 Print Assumptions ext_length_ignored_refuted.
+
+(* ---- transport parameters (stretch): decoder totality ---- *)
+Theorem tparams_pull_total : forall bs, bytes_ok bs ->
+  match pull_quic_transport_parameters bs with Ok _ => True | Err k => k = E_READ \/ k = E_VALUE end.
+Proof. exact TParamsProofs.tparams_pull_total. Qed.
+Print Assumptions tparams_pull_total.
